@@ -306,7 +306,7 @@ void mmd_export_link_html(DString * out, const char * source, token * text, link
 		print_const(" ");
 		print(a->key);
 		print_const("=\"");
-		print(a->value);
+		mmd_print_string_html(out, a->value, false, false);
 		print_const("\"");
 		a = a->next;
 	}
